@@ -27,7 +27,7 @@ ASSUMPTIONS = [
     "a fault window ends when the last datagram it delayed has been delivered (reordering confined to a finite window)",
     "bound after the last disturbance: finite family max(TTLs) + max(cyclic, refresh) + slack; infinite family INITIAL_DELAY_MAX + 2 x cyclic + slack; slack = initial delay + request-response delay + collection timeout + repetition phase + 0.2 s (deliberately generous)",
     "infinite family with cyclic offers only: a restarted offerer is detected once per channel (C07), and the detection on the unicast channel (its first SubscribeAck) wipes the offer just learnt from its first multicast message (C05); only a further offer repairs that, so without cyclic offers no implementation that satisfies C05 and C07 converges",
-    "infinite family (the statement's restriction): no fault windows, every crash is followed by a restart, and successive disturbances are at least one bound apart so that a (re)started peer has transmitted before it is disturbed again - otherwise per-channel reboot detection (C07) makes convergence impossible for any implementation",
+    "infinite family (the statement's restriction): no fault windows, every crash is followed by a restart, and successive disturbances are at least one bound apart so that a (re)started peer has transmitted before it is disturbed again (a second crash of the stack just restarted is admitted as soon as that stack has sent one SD message) - otherwise per-channel reboot detection (C07) makes convergence impossible for any implementation",
 ]
 BUDGET = {"quick": {"examples": 6400, "shrink": 150}, "thorough": {"examples": 200000, "shrink": 600}}
 INF = 0xFFFFFF
@@ -142,6 +142,16 @@ def fixed_cases(tier):
                 for pre in (0.05, 1.3):
                     out.append({"fam": fam, "tm": tm, "fr": [0.5], "faults": [["ok"]], "v6": side == "W",
                                 "steps": [{"op": "wait", "when": ["d", pre]}, {"op": "stop" + side, "when": ["d", 0.05]}, {"op": "start" + side, "when": ["s"]}] + tail})
+    # infinite family: a restarted stack crashes again after it has sent its first message(s), around each of its timers
+    for side in "OW":
+        for pre in (1.3, 3.0):
+            for k in range(5):
+                for off in ("+q", "+4"):
+                    # k timers of the restarted stack (first offer, its transmission, the repetitions, ...) pass before it crashes again
+                    out.append({"fam": "infinite", "tm": inf, "fr": [0.5], "faults": [["ok"]], "v6": k % 2 == 1,
+                                "steps": [{"op": "wait", "when": ["d", pre]}, {"op": "crash" + side, "when": ["d", 0.1]}, {"op": "restart" + side, "when": ["d", 0.3]}]
+                                         + [{"op": "wait", "when": ["t", 0, "+q"]}] * k
+                                         + [{"op": "crash" + side, "when": ["t", 0, off]}, {"op": "restart" + side, "when": ["d", 0.3]}]})
     # D2: a restarted watcher's first Subscribe carries the reboot evidence (infinite TTL: nothing heals it later)
     out.append({"fam": "infinite", "tm": inf, "fr": [0.5], "steps": [{"op": "wait", "when": ["d", 3.0]}, {"op": "crashW", "when": ["d", 0.1]}, {"op": "restartW", "when": ["d", 0.5]}], "faults": [["ok"]]})
     out.append({"fam": "infinite", "tm": inf, "fr": [0.5], "steps": [{"op": "wait", "when": ["d", 3.0]}, {"op": "crashO", "when": ["d", 0.1]}, {"op": "restartO", "when": ["d", 0.5]}], "faults": [["ok"]]})
@@ -296,8 +306,11 @@ def run_case(case):
             kind, role = op[:-1], op[-1]
             S = st_[role]
             if fam == "infinite" and kind != "restart":
-                # spacing restriction of the infinite family (see ASSUMPTIONS); the restart that follows a crash is exempt
-                if sim.now - last_disturbance[0] < bound and last_disturbance[0] > 0:
+                # spacing restriction of the infinite family (see ASSUMPTIONS); the restart that follows a crash is exempt, and
+                # so is a second crash of the stack that was just restarted once it has sent at least one SD message (the
+                # statement's own condition on restarts)
+                again = kind == "crash" and last_op[0] == ("restart", role) and exists[role] and S.sent_any
+                if sim.now - last_disturbance[0] < bound and last_disturbance[0] > 0 and not again:
                     return
             if kind == "stop":
                 if not exists[role] or not S.started:
@@ -329,8 +342,10 @@ def run_case(case):
             if w[0] == "t":
                 feats["rel-to-timer"] += 1
             last_disturbance[0] = sim.now
+            last_op[0] = (kind, role)
 
         pending_restart = []
+        last_op = [None]
         sim.advance(0.001)
         hist.drive(sim, case["steps"], execute)
         net.fault = False
